@@ -79,7 +79,7 @@ func (c13) Classes() []sim.Class {
 func (c13) Describe() sim.Description {
 	return sim.Description{
 		Level: "fault_enumeration",
-		Rule: "per run one tape-generated module (plan vocabulary, 3-8 functions). Determinism: the entry written by three fresh runtimes on fresh sim-disks is byte-identical (reference entry); class determinism-processes repeats it in separate OS processes with different GOMAXPROCS, environment and allocation history. " +
+		Rule: "class large-entry: modules of 65-140 thousand functions (entries over a megabyte) written cold and read back by a fresh runtime; otherwise: per run one tape-generated module (plan vocabulary, 3-8 functions). Determinism: the entry written by three fresh runtimes on fresh sim-disks is byte-identical (reference entry); class determinism-processes repeats it in separate OS processes with different GOMAXPROCS, environment and allocation history. " +
 			"Class crash-points ENUMERATES every crash point of the add operation: before each mutating syscall the sim-disk logged (CreateTemp, Write, Sync, Close, Rename, ...) and inside each Write after k bytes (k in 0, 1, every 512th byte, len-1; thorough: every k for writes up to 1000 bytes, else about 1000 evenly spaced k); the crash freezes the disk and unwinds the writer; the post-crash disk is produced under process death (completed syscalls persist, k-byte prefix of the in-flight write) and under power loss (file data persists only up to its last Sync, unsynced tail dropped or zero-filled, each directory operation persisted or not - all-persisted, none, and tape-sampled subsets); " +
 			"a new runtime over the surviving disk must find under the final name nothing or a byte-identical entry, compile successfully, and run the plan correctly. Class truncation: every truncation length of the reference entry (quick: all structure boundaries +-1 and every 97th byte; thorough: every length) and foreign-version entries must give an error or a fresh compile, never a success that used the damaged bytes. " +
 			"Class read-faults: short reads and EIO on the entry. Class concurrent-writers: two runtimes compile the same module as baton-scheduled tasks, yields at every sim-disk syscall, optional crash. Non-trivial: the crash landed inside the add operation (or the cut/fault hit the entry); distinct = (module, crash point, persistence model)",
